@@ -6,6 +6,7 @@ import PM.Step
 import PM.Transform
 import Proofs.StepToks
 import Proofs.StepMap
+import Proofs.StepMapLeft
 namespace PM.C03
 open PM
 
@@ -433,5 +434,191 @@ theorem transform_mapped_position_same_content (S : Schema) (doc : Node) (sts : 
   obtain ⟨s1, s2, s3, s4⟩ := e3 p hp hout
   refine ⟨(mapAll (new.map Step.getMap) p).toNat, ?_, s2, s3, s4⟩
   rw [mapping_map_eq_mapAll, Int.toNat_of_nonneg s1]
+
+/-! ### the other association side (`assoc = -1`) -/
+
+/-- **a replace step's map, every position, either side**: before the range unchanged, after it
+    shifted by `size − (to − from)`; inside the closed range `[from, to]` the position lands at the
+    start of the inserted content or at its end, by C08's rule (`rangeSide`): a pure insertion
+    (`from = to`) follows `assoc`; otherwise `from` sticks left, `to` sticks right and the deleted
+    interior follows `assoc` -/
+theorem replace_map_rule (f t : Nat) (sl : Slice) (b : Bool) (hft : f ≤ t) (p : Nat) (a : Int) :
+    (Step.replace f t sl b).getMap.map p a =
+      if p < f then (p : Int)
+      else if t < p then (p : Int) + (sl.size - ((t : Int) - f))
+      else (f : Int) + (if rangeSide f ((t : Int) - f) p a < 0 then 0 else sl.size) := by
+  dsimp only [Step.getMap]
+  rw [map_one_rule _ _ _ _ _ (by omega)]
+  by_cases h1 : p < f
+  · rw [if_pos (by omega), if_pos h1]
+  · rw [if_neg (by omega), if_neg h1]
+    by_cases h2 : t < p
+    · rw [if_pos (by omega), if_pos h2]
+    · rw [if_neg (by omega), if_neg h2]
+
+/-- **where the two sides agree, where they differ** (replace step): they agree strictly outside the
+    range and — when something is deleted — at its two ends; they differ exactly at a pure insertion
+    point and strictly inside deleted content, where `-1` gives the start of the inserted content
+    and `1` its end -/
+theorem replace_map_sides (f t : Nat) (sl : Slice) (b : Bool) (hft : f ≤ t) (p : Nat) :
+    let m := (Step.replace f t sl b).getMap
+    ((p < f ∨ t < p ∨ (f < t ∧ (p = f ∨ p = t))) → m.map p (-1) = m.map p 1) ∧
+    (p < f → m.map p (-1) = p) ∧ (t < p → m.map p (-1) = (p : Int) + (sl.size - ((t : Int) - f))) ∧
+    (f < t → p = f → m.map p (-1) = f) ∧ (f < t → p = t → m.map p (-1) = (f : Int) + sl.size) ∧
+    (((f = t ∧ p = f) ∨ (f < p ∧ p < t)) → m.map p (-1) = f ∧ m.map p 1 = (f : Int) + sl.size) := by
+  intro m
+  have r : ∀ a, m.map p a = if p < f then (p : Int)
+      else if t < p then (p : Int) + (sl.size - ((t : Int) - f))
+      else (f : Int) + (if rangeSide f ((t : Int) - f) p a < 0 then 0 else sl.size) :=
+    fun a => replace_map_rule f t sl b hft p a
+  have hlt : ∀ a, p < f → m.map p a = p := fun a h => by rw [r a, if_pos h]
+  have hgt : ∀ a, t < p → m.map p a = (p : Int) + (sl.size - ((t : Int) - f)) := fun a h => by
+    rw [r a, if_neg (by omega), if_pos h]
+  have hst : ∀ a, f < t → p = f → m.map p a = f := fun a h1 h2 => by
+    rw [r a, if_neg (by omega), if_neg (by omega), h2, rangeSide_start _ _ _ (by omega)]; simp
+  have hen : ∀ a, f < t → p = t → m.map p a = (f : Int) + sl.size := fun a h1 h2 => by
+    rw [r a, if_neg (by omega), if_neg (by omega), h2, rangeSide_end _ _ _ _ (by omega) (by omega)]; simp
+  have hin : ∀ a, ((f = t ∧ p = f) ∨ (f < p ∧ p < t)) →
+      m.map p a = (f : Int) + (if a < 0 then 0 else sl.size) := fun a h => by
+    rw [r a, if_neg (by omega), if_neg (by omega)]
+    rcases h with ⟨h1, h2⟩ | ⟨h1, h2⟩
+    · rw [show (t : Int) - f = 0 by omega, rangeSide_empty]
+    · rw [rangeSide_inner _ _ _ _ (by omega) (by omega) (by omega)]
+  refine ⟨fun h => ?_, hlt _, hgt _, hst _, hen _, fun h => ?_⟩
+  · rcases h with h | h | ⟨h, h' | h'⟩
+    · rw [hlt _ h, hlt _ h]
+    · rw [hgt _ h, hgt _ h]
+    · rw [hst _ h h', hst _ h h']
+    · rw [hen _ h h', hen _ h h']
+  · rw [hin _ h, hin _ h]; simp
+
+/-- **mapped with `assoc = -1`, a position keeps the content before it** (replace step): for a
+    position at or before the start of the range, or strictly after its end, the token *before* the
+    mapped position is the token before the position -/
+theorem mapped_position_same_content_left (S : Schema) (doc doc' : Node) (f t : Nat) (sl : Slice) (st : Bool)
+    (h : S.apply (.replace f t sl st) doc = .ok doc') (p : Nat) (hp0 : 0 < p)
+    (hp : p ≤ f ∨ t < p) (hps : p ≤ fsize doc.kids) :
+    0 < (Step.replace f t sl st).getMap.map p (-1) ∧
+    (ftoks doc'.kids)[((Step.replace f t sl st).getMap.map p (-1)).toNat - 1]? = (ftoks doc.kids)[p - 1]? := by
+  obtain ⟨htoks, hft, htl, hwf⟩ := apply_replace_facts S doc doc' f t sl st h
+  have hlen := Slice.toks_length_int sl hwf
+  have hL : (ftoks doc.kids).length = fsize doc.kids := ftoks_length _
+  have hsz : (0 : Int) ≤ sl.size := by omega
+  rw [replace_map_rule f t sl st hft p (-1)]
+  rcases hp with h1 | h1
+  · have hv : (if p < f then (p : Int)
+        else if t < p then (p : Int) + (sl.size - ((t : Int) - f))
+        else (f : Int) + (if rangeSide f ((t : Int) - f) p (-1) < 0 then 0 else sl.size)) = p := by
+      by_cases hlt : p < f
+      · rw [if_pos hlt]
+      · have hpf : p = f := by omega
+        subst hpf
+        rw [if_neg hlt, if_neg (by omega)]
+        simp only [rangeSide]
+        split <;> simp
+    rw [hv]
+    refine ⟨by omega, ?_⟩
+    rw [Int.toNat_natCast, htoks]
+    exact splice_get_before _ _ _ f p h1 hp0 (by omega)
+  · rw [if_neg (by omega), if_pos h1]
+    refine ⟨by omega, ?_⟩
+    have e : ((p : Int) + (sl.size - ((t : Int) - f))).toNat - 1 = f + sl.toks.length + (p - 1 - t) := by omega
+    rw [e, htoks, splice_get_ge _ _ _ _ _ (by omega) (by omega)]
+
+/-- **a replace-around step's map, every position, either side**: two ranges `[from, gapFrom]` and
+    `[gapTo, to]` around the kept gap, each obeying C08's rule; the first range takes a position on
+    both (an empty gap) -/
+theorem replaceAround_map_rule (f t gf gt : Nat) (sl : Slice) (ins : Nat) (b : Bool)
+    (hg : f ≤ gf ∧ gf ≤ gt ∧ gt ≤ t) (p : Nat) (a : Int) :
+    (Step.replaceAround f t gf gt sl ins b).getMap.map p a =
+      if p < f then (p : Int)
+      else if p ≤ gf then (f : Int) + (if rangeSide f ((gf : Int) - f) p a < 0 then 0 else (ins : Int))
+      else if p < gt then (p : Int) + ((ins : Int) - ((gf : Int) - f))
+      else if p ≤ t then
+        (gt : Int) + ((ins : Int) - ((gf : Int) - f)) +
+          (if rangeSide gt ((t : Int) - gt) p a < 0 then 0 else sl.size - ins)
+      else (p : Int) + ((ins : Int) - ((gf : Int) - f)) + (sl.size - ins - ((t : Int) - gt)) := by
+  obtain ⟨hg1, hg2, hg3⟩ := hg
+  dsimp only [Step.getMap]
+  rw [map_two_rule _ _ _ _ _ _ _ _ (by omega) (by omega)]
+  by_cases h1 : p < f
+  · rw [if_pos (by omega), if_pos h1]
+  · rw [if_neg (by omega), if_neg h1]
+    by_cases h2 : p ≤ gf
+    · rw [if_pos (by omega), if_pos h2]
+    · rw [if_neg (by omega), if_neg h2]
+      by_cases h3 : p < gt
+      · rw [if_pos (by omega), if_pos h3]
+      · rw [if_neg (by omega), if_neg h3]
+        by_cases h4 : p ≤ t
+        · rw [if_pos (by omega), if_pos h4]
+        · rw [if_neg (by omega), if_neg h4]
+
+/-- **mapped with `assoc = -1`, a position keeps the content before it** (replace-around step): for a
+    position at or before `from`, inside the kept gap or at its end (`gapFrom < p ≤ gapTo`), or
+    strictly after `to` -/
+theorem mapped_position_same_content_around_left (S : Schema) (doc doc' : Node) (f t gf gt : Nat)
+    (sl : Slice) (ins : Nat) (st : Bool) (hwf : sl.wf = true) (hins : (ins : Int) ≤ sl.size)
+    (hg : f ≤ gf ∧ gf ≤ gt ∧ gt ≤ t)
+    (h : S.apply (.replaceAround f t gf gt sl ins st) doc = .ok doc')
+    (p : Nat) (hp0 : 0 < p) (hp : p ≤ f ∨ (gf < p ∧ p ≤ gt) ∨ t < p) (hps : p ≤ fsize doc.kids) :
+    0 < (Step.replaceAround f t gf gt sl ins st).getMap.map p (-1) ∧
+    (ftoks doc'.kids)[((Step.replaceAround f t gf gt sl ins st).getMap.map p (-1)).toNat - 1]? =
+      (ftoks doc.kids)[p - 1]? := by
+  obtain ⟨htoks, htl, _⟩ := apply_replaceAround_toks S doc doc' f t gf gt sl ins st hwf hins hg h
+  have hlen := Slice.toks_length_int sl hwf
+  have hL : (ftoks doc.kids).length = fsize doc.kids := ftoks_length _
+  rw [replaceAround_map_rule f t gf gt sl ins st hg p (-1)]
+  obtain ⟨hg1, hg2, hg3⟩ := hg
+  rcases hp with h1 | ⟨h1, h2⟩ | h1
+  · have hv : ∀ X : Int, (if p < f then (p : Int)
+        else if p ≤ gf then (f : Int) + (if rangeSide f ((gf : Int) - f) p (-1) < 0 then 0 else (ins : Int))
+        else X) = p := by
+      intro X
+      by_cases hlt : p < f
+      · rw [if_pos hlt]
+      · have hpf : p = f := by omega
+        subst hpf
+        rw [if_neg hlt, if_pos hg1]
+        simp only [rangeSide]
+        split <;> simp
+    rw [hv]
+    refine ⟨by omega, ?_⟩
+    rw [Int.toNat_natCast, htoks]
+    exact around_get_lt _ _ _ _ _ _ _ _ (by omega) (by omega)
+  · rw [if_neg (by omega), if_neg (by omega)]
+    have hv : ∀ X : Int, (if p < gt then (p : Int) + ((ins : Int) - ((gf : Int) - f))
+        else if p ≤ t then (gt : Int) + ((ins : Int) - ((gf : Int) - f)) +
+          (if rangeSide gt ((t : Int) - gt) p (-1) < 0 then 0 else sl.size - ins)
+        else X) = (p : Int) + ((ins : Int) - ((gf : Int) - f)) := by
+      intro X
+      by_cases hlt : p < gt
+      · rw [if_pos hlt]
+      · have hpg : p = gt := by omega
+        subst hpg
+        rw [if_neg hlt, if_pos hg3]
+        simp only [rangeSide]
+        split <;> simp
+    rw [hv]
+    refine ⟨by omega, ?_⟩
+    have e : ((p : Int) + ((ins : Int) - ((gf : Int) - f))).toNat - 1 = f + ins + (p - 1 - gf) := by omega
+    rw [e, htoks, around_get_mid _ _ _ _ _ _ _ _ (by omega) (by omega) (by omega) (by omega) (by omega)]
+  · rw [if_neg (by omega), if_neg (by omega), if_neg (by omega), if_neg (by omega)]
+    refine ⟨by omega, ?_⟩
+    have e : ((p : Int) + ((ins : Int) - ((gf : Int) - f)) + (sl.size - ins - ((t : Int) - gt))).toNat - 1
+        = f + sl.toks.length + (gt - gf) + (p - 1 - t) := by omega
+    rw [e, htoks, around_get_ge _ _ _ _ _ _ _ _ (by omega) (by omega) hg2 (by omega) (by omega)]
+
+/-- the markup steps have the empty map: both sides map every position to itself -/
+theorem markup_map_both_sides (st : Step) (hm : ¬ IsReplaceFamily st) (p : Int) :
+    st.getMap.map p (-1) = p ∧ st.getMap.map p 1 = p := by
+  cases st <;> simp only [IsReplaceFamily, not_true_eq_false] at hm <;>
+    exact ⟨map_empty p (-1), map_empty p 1⟩
+
+/-- non-vacuity: inserting two tokens at 3 — the sides differ at the insertion point only -/
+example :
+    let m := (Step.replace 3 3 ⟨[.text [120, 121] []], 0, 0⟩ false).getMap
+    m.map 3 (-1) = 3 ∧ m.map 3 1 = 5 ∧ m.map 2 (-1) = 2 ∧ m.map 2 1 = 2 ∧ m.map 4 (-1) = 6 ∧ m.map 4 1 = 6 := by
+  decide
 
 end PM.C03
